@@ -5,7 +5,7 @@ T=${1:-quick}; F=${2:-}
 cd /repo || exit 2
 if [ -n "$(git status --porcelain --untracked-files=no)" ]; then echo "repo dirty, refusing"; exit 2; fi
 for d in /verif/seeded/*${F}*/; do
-  name=$(basename $d); prop=$(jq -r .property $d/meta.json)
+  name=$(basename $d); prop=$(jq -r '.caught_by_check_of // .property' $d/meta.json)
   if [ "$(jq -r '.obsolete // false' $d/meta.json)" = "true" ]; then echo "$name: skipped (obsolete: no longer breaks the property on the repaired tree, see meta.json)"; continue; fi
   git apply $d/patch.diff 2>/dev/null || { echo "$name: PATCH DOES NOT APPLY"; continue; }
   out=$(/verif/bin/check $prop $T 2>&1); rc=$?
